@@ -2,11 +2,14 @@ use crate::runner::{Ctx, Tier};
 use serde_json::Value;
 
 pub mod c01;
+pub mod c02;
+pub mod c03;
+pub mod c08;
 pub mod c13;
 pub mod c14;
 
 /// Properties served by the `vcheck` binary.
-pub const IDS: &[&str] = &["C01", "C07", "C13", "C14"];
+pub const IDS: &[&str] = &["C01", "C02", "C03", "C07", "C08", "C13", "C14"];
 
 /// Committed regression replays (/verif/regressions/<ID>-*.json): shrunk failing cases of
 /// defects found earlier; re-run first, bypassing the generators.
@@ -41,7 +44,10 @@ pub fn run(prop: &str, tier: Tier) -> i32 {
     let reg_fail = !regfailed.is_empty();
     match prop {
         "C01" => c01::run(&mut ctx, c01::Mode::Index),
+        "C02" => c02::run(&mut ctx),
+        "C03" => c03::run(&mut ctx),
         "C07" => c01::run(&mut ctx, c01::Mode::Category),
+        "C08" => c08::run(&mut ctx),
         "C13" => c13::run(&mut ctx),
         "C14" => c14::run(&mut ctx),
         _ => {
@@ -75,7 +81,10 @@ pub fn replay(prop: &str, path: &str) -> i32 {
     let case = v.get("case").cloned().unwrap_or(Value::Null);
     match prop {
         "C01" => c01::replay(c01::Mode::Index, &stream, path, &case),
+        "C02" => c02::replay(&stream, path, &case),
+        "C03" => c03::replay(&stream, path, &case),
         "C07" => c01::replay(c01::Mode::Category, &stream, path, &case),
+        "C08" => c08::replay(&stream, path, &case),
         "C13" => c13::replay(&stream, path, &case),
         "C14" => c14::replay(&stream, path, &case),
         _ => {
